@@ -256,6 +256,29 @@ def make_case(ctx, g):
             flags.add("in-place-change-between-unified")
             for c in targets:
                 check_unified(ctx, w, c, fails, flags)
+    if g.chance(0.1):
+        # a refused unified() leaves nothing behind for the next one: one document whose first group merges and whose second
+        # group conflicts (the call is refused after work has been done), then another document that states one of the
+        # first document's statements once, on its own
+        import datetime as _dt
+        EXN = Namespace("ex", "http://example.org/")
+        k_ = g.rng.randint(0, 99)
+        sh = QualifiedName(EXN, "shared%d" % k_)
+        a1 = [(QualifiedName(EXN, "size"), g.rng.randint(1, 9))]
+        a2 = [(QualifiedName(EXN, "colour"), g.choice(["red", "green"]))]
+        d1 = w.new_doc(); b._init_scope(d1)
+        w.new_record(d1, "Entity", sh, a1)
+        w.new_record(d1, "Entity", sh, a2)
+        cl = QualifiedName(EXN, "clash%d" % k_)
+        w.new_record(d1, "Activity", cl, [(PROV["startTime"], _dt.datetime(2020, 1, 1, 8, 0, 0))])
+        w.new_record(d1, "Activity", cl, [(PROV["startTime"], _dt.datetime(2020, 1, 2, 9, 30, 0))])
+        check_unified(ctx, w, d1, fails, flags)
+        d2 = w.new_doc(); b._init_scope(d2)
+        w.new_record(d2, "Entity", sh, g.choice([a1, a2]))
+        if g.chance(0.5):
+            w.new_record(d2, "Entity", QualifiedName(EXN, "other%d" % k_), [])
+        check_unified(ctx, w, d2, fails, flags)
+        flags.add("unified-after-a-refused-unified")
     w.obs(d)
     ctx.evaluations += 1
     for f in flags:
